@@ -31,7 +31,10 @@ MANIFEST = {
                   "than present is rejected by both paths except mdat on the SR path (empty box, AccError set; C03_leaf_boxes_truncated). "
                   "ENCODER pairs written twice: MdatBox, StsdBox, VisualSampleEntryBox Encode = EncodeSW given agreeing children "
                   "(C03_mdat_enc_agree, C03_stsd_enc_agree, C03_vse_enc_agree: the hypothesis `agree` is discharged for them; TrunBox and "
-                  "SencBox Encode call their own EncodeSW). The key sets of decoders and decodersSR "
+                  "SencBox Encode call their own EncodeSW). The delegation pattern of the remaining reader-path decoders (read the body, run the SR "
+                  "decoder on a private reader) is sound for EVERY SR decoder that is a decision tree of position-relative reader operations "
+                  "(C03_delegate_sound over the C04 FixedSliceReader model; which Go decoders are such programs is not established by the check). "
+                  "The key sets of decoders and decodersSR "
                   "are equal (C03_registry, regenerated from the hook on every run). "
                   "EXPLORED only: the remaining ~125 leaf decoder pairs (most reader-path decoders read the body and delegate to the SR "
                   "decoder) and the remaining leaf ENCODER pairs, i.e. the hypothesis `leaves agree` of the encode theorems: both paths are run on "
